@@ -114,7 +114,7 @@ func c15Exprs(s *source, fd *ast.FuncDecl) []string {
 				out = append(out, "set:"+s.src(x))
 			case fn == "h.AddWithReplicas" || fn == "h.Remove" || fn == "NewCustomConsistentHash" || fn == "lang.Repr" ||
 				fn == "h.removeRingNode" || fn == "insertRingNode" || fn == "h.addNode" || fn == "h.removeNode" ||
-				fn == "h.containsNode" || fn == "murmur3.Sum64":
+				fn == "h.containsNode" || fn == "murmur3.Sum64" || fn == "h.removeLocked":
 				out = append(out, "call:"+s.src(x))
 			case fn == "h.hashFunc" && len(x.Args) == 1:
 				out = append(out, "hash:"+s.src(x.Args[0]))
@@ -137,6 +137,51 @@ func c15Exprs(s *source, fd *ast.FuncDecl) []string {
 	return out
 }
 
+// c15Users: how the users named by the property's anchors build the ring and dispatch a key:
+//   <func>:<call>   every call of hash.NewConsistentHash / <x>.AddWithWeight / <x>.dispatcher.Get / .Add / .Remove /
+//                   .AddWithReplicas on a dispatcher, with the function it occurs in
+//   <func>:range:<header>, <func>:if:<cond>  loops and conditions of the constructor
+func c15Users(s *source, rel string, ctor string) []string {
+	f := s.file(rel)
+	if f == nil {
+		return []string{"MISSING " + rel}
+	}
+	var out []string
+	for _, d := range f.Decls {
+		fd, ok := d.(*ast.FuncDecl)
+		if !ok || fd.Body == nil {
+			continue
+		}
+		name := fd.Name.Name
+		ast.Inspect(fd.Body, func(n ast.Node) bool {
+			switch x := n.(type) {
+			case *ast.CallExpr:
+				fn := s.src(x.Fun)
+				if fn == "hash.NewConsistentHash" || fn == "hash.NewCustomConsistentHash" ||
+					strings.HasSuffix(fn, "ispatcher.AddWithWeight") || strings.HasSuffix(fn, "ispatcher.Get") ||
+					strings.HasSuffix(fn, "ispatcher.Add") || strings.HasSuffix(fn, "ispatcher.AddWithReplicas") ||
+					strings.HasSuffix(fn, "ispatcher.Remove") {
+					out = append(out, name+":"+s.src(x))
+				}
+			case *ast.RangeStmt:
+				if name == ctor {
+					out = append(out, name+":range:"+s.src(x.Key)+","+s.src(x.Value)+":="+s.src(x.X))
+				}
+			case *ast.IfStmt:
+				if name == ctor {
+					out = append(out, name+":if:"+s.src(x.Cond))
+				}
+			case *ast.AssignStmt:
+				if name == ctor && len(x.Lhs) == 1 && s.src(x.Lhs[0]) == "cn" {
+					out = append(out, name+":"+s.src(x))
+				}
+			}
+			return true
+		})
+	}
+	return out
+}
+
 func init() {
 	register("C15", func(s *source, e *emitter) {
 		const f = "core/hash/consistenthash.go"
@@ -147,6 +192,11 @@ func init() {
 		e.c15Arith(t, s, f, "NewCustomConsistentHash", "if replicas < minReplicas", "newReplicas", []string{"replicas"}, "replicas")
 		e.c15Arith(t, s, f, "ConsistentHash.AddWithReplicas", "if replicas > h.replicas", "clampReplicas", []string{"replicas"}, "replicas")
 		e.c15Arith(t, s, f, "ConsistentHash.AddWithWeight", "replicas := ", "weightReplicas", []string{"weight"}, "replicas")
+		if st := c15Stmt(s, s.findFunc(f, "ConsistentHash.AddWithWeight"), "replicas := "); st != nil {
+			e.stringList("weightStmt", "the weight formula as written", []string{s.src(st)})
+		} else {
+			e.stringList("weightStmt", "the weight formula as written", []string{"MISSING"})
+		}
 		for _, fn := range [][2]string{
 			{"NewConsistentHash", "newDefault"}, {"NewCustomConsistentHash", "newCustom"}, {"ConsistentHash.Add", "add"},
 			{"ConsistentHash.AddWithReplicas", "addWithReplicas"}, {"ConsistentHash.AddWithWeight", "addWithWeight"},
@@ -160,6 +210,22 @@ func init() {
 			e.shapeDef(s, f, fn[0], fn[1]+"Shape")
 			e.stringList(fn[1]+"Exprs", "hashed bytes, search predicates, orderings, `%` of `"+fn[0]+"`", c15Exprs(s, fd))
 		}
+		// fixes/C15-add-single-critical-section.patch moves the body of Remove into removeLocked (absent before)
+		if fd := s.findFunc(f, "ConsistentHash.removeLocked"); fd != nil {
+			e.shapeDef(s, f, "ConsistentHash.removeLocked", "removeLockedShape")
+			e.stringList("removeLockedExprs", "hashed bytes, search predicates of `removeLocked`", c15Exprs(s, fd))
+		} else {
+			e.stringList("removeLockedShape", "`removeLocked` does not exist in this tree", []string{"ABSENT"})
+			e.stringList("removeLockedExprs", "`removeLocked` does not exist in this tree", []string{"ABSENT"})
+		}
+		// the users of the ring
+		e.stringList("cacheUsers", "ring construction and dispatch in core/stores/cache/cache.go", c15Users(s, "core/stores/cache/cache.go", "New"))
+		e.stringList("kvUsers", "ring construction and dispatch in core/stores/kv/store.go", c15Users(s, "core/stores/kv/store.go", "NewStore"))
+		e.shapeDef(s, "core/stores/cache/cachenode.go", "cacheNode.String", "cacheNodeStringShape")
+		e.stringList("cacheNodeStringExprs", "repr of a cache node", c15Exprs(s, s.findFunc("core/stores/cache/cachenode.go", "cacheNode.String")))
+		e.stringList("redisStringExprs", "repr of a redis node", c15Exprs(s, s.findFunc("core/stores/redis/redis.go", "Redis.String")))
+		e.stringList("totalWeightsExprs", "TotalWeights", c15Exprs(s, s.findFunc("core/stores/cache/util.go", "TotalWeights")))
+		e.shapeDef(s, "core/stores/cache/util.go", "TotalWeights", "totalWeightsShape")
 		// the default hash
 		e.stringList("hashExprs", "what `Hash` computes", c15Exprs(s, s.findFunc("core/hash/hash.go", "Hash")))
 	})
